@@ -27,6 +27,10 @@ REGISTRY = [
      ["tools/replay_d4.sh"]),
     (r"openat2_resolve_partial.*(unreachable|unlabelled)",
      ["tools/replay_strace.sh", "findings/D5_unreachable_on_fault.rs", "verif_replay_d5", "openat2:error=EMFILE:when=3+"]),
+    (r"create_file\.(returned_descriptor_is_inside_the_root|final_name_is_not_dot_or_dotdot)",
+     ["tools/replay_real.sh", "findings/D8_create_file_dotdot_opath.rs", "verif_replay_d8"]),
+    (r"static\.walk_invariant|equals_the_kernel_walk_on_a_static_tree",
+     ["tools/replay_real.sh", "findings/D6_empty_path.rs", "verif_replay_d6"]),
     (r"static GLOBAL_PROCFS_HANDLE",
      ["tools/replay_real.sh", "findings/D5c_global_procfs_init.rs", "verif_replay_d5c"]),
     (r"static PROTECTED_SYMLINKS_SYSCTL",
